@@ -238,6 +238,24 @@ func (w *Walker) randomPlacement(maxPieces int) string {
 	return position.StartFen
 }
 
+// forcedPlacement looks (by rejection sampling) for a position in which the side to move is in
+// check and has at most two legal moves: single evasions by interposition, capture of the checker,
+// en passant, promotion - the corners where a generator shortcut goes wrong. The engine's own
+// generator is only the filter here, never the judge.
+func (w *Walker) forcedPlacement() string {
+	for tries := 0; tries < 3000; tries++ {
+		fen := w.randomPlacement(8 + w.rng.Intn(16))
+		p, err := position.NewPositionFen(fen)
+		if err != nil || p == nil || !p.HasCheck() {
+			continue
+		}
+		if n := len(w.legalMoves(p)); n >= 1 && n <= 2 {
+			return fen
+		}
+	}
+	return ""
+}
+
 // PositionSource yields positions (with the game history that led to them).
 type GamePos struct {
 	Root  string // FEN the game started from
@@ -265,6 +283,14 @@ func (w *Walker) Stream(n int, includeCorpus bool, f func(g GamePos)) {
 	}
 	for count < n {
 		var root string
+		if w.rng.Chance(12) {
+			if fen := w.forcedPlacement(); fen != "" {
+				if p, err := position.NewPositionFen(fen); err == nil && p != nil {
+					emit(GamePos{Root: fen, P: p})
+				}
+				continue
+			}
+		}
 		switch r := w.rng.Intn(10); {
 		case r < 6:
 			root = corpus[w.rng.Intn(len(corpus))]
